@@ -83,6 +83,13 @@ Definition updates_ok (t : Z) (n : nat) (us : list update) : bool :=
   forallb (fun u => (t <? u_ts u) ||
                     ((0 <=? u_index u) && (u_index u <? Z.of_nat n) && annotated_u u)) us.
 
+(* "fully annotated" read at time t: the stored way is fully annotated, every due update names an
+   existing node, and the way with the updates applied (by the specification) is still fully
+   annotated.  Weaker than [fully_annotated ns && updates_ok ..]: an all-zero due update is
+   allowed when a later one for the same node overwrites it. *)
+Definition annotated_at (t : Z) (ns : list wnode) (us : list update) : bool :=
+  fully_annotated ns && all_in_range t (length ns) us && fully_annotated (spec_nodes t us ns).
+
 (* what sort.Sort establishes for a strict weak order [less]: no later element is Less than
    an earlier one *)
 Definition sorted_for (less : update -> update -> bool) (l : list update) : Prop :=
